@@ -54,7 +54,7 @@ Definition run_impl (m : meth) (args : list val) : outcome :=
   | _, _ => Panic
   end.
 
-(* the same calls at the pinned HEAD (before fixes/c14-builtins.diff) where they differ *)
+(* the same calls at the pinned HEAD (before the fix: commits a7759b5..1441424, fixes/c14-*.diff) where they differ *)
 Definition run_impl_head (m : meth) (args : list val) : outcome :=
   match m, args with
   | MIndex, [VStr s; VBig i] => impl_index_big_head s i
